@@ -4,6 +4,7 @@ package vrt
 // queues of senders and receivers, rendezvous for unbuffered channels, close waking everybody.
 // A nil *Chan[T] behaves like a nil channel (never ready).
 type Chan[T any] struct {
+	h         H
 	capacity  int
 	buf       []T
 	closed    bool
@@ -60,6 +61,13 @@ func (c *Chan[T]) Len() int {
 	}
 	if c.syncTimer {
 		return 0
+	}
+	if r := rt; r != nil && !r.aborting {
+		r.point("len(chan)")
+		if c.poll != nil {
+			c.poll()
+		}
+		r.event(&c.h, 0x80)
 	}
 	return len(c.buf)
 }
@@ -145,6 +153,7 @@ func (c *Chan[T]) sendReady() bool {
 // doRecv performs a receive that is known to be ready.
 func (c *Chan[T]) doRecv() (v T, ok bool) {
 	r := rt
+	r.event(&c.h, 0x81)
 	if len(c.buf) > 0 {
 		v = c.buf[0]
 		var z T
@@ -163,6 +172,7 @@ func (c *Chan[T]) doRecv() (v T, ok bool) {
 			}
 			w.done = true
 			completeSel(w.sel, w.idx)
+			absorb(w.t, c.h)
 			r.ready(w.t)
 		}
 		return v, true
@@ -173,6 +183,7 @@ func (c *Chan[T]) doRecv() (v T, ok bool) {
 		raceRelease(&w.sync[1])
 		w.done = true
 		completeSel(w.sel, w.idx)
+		absorb(w.t, c.h)
 		r.ready(w.t)
 		return v, true
 	}
@@ -188,6 +199,7 @@ func (c *Chan[T]) doRecv() (v T, ok bool) {
 // doSend performs a send that is known to be ready.
 func (c *Chan[T]) doSend(v T) {
 	r := rt
+	r.event(&c.h, 0x82)
 	if c.closed {
 		panic("send on closed channel")
 	}
@@ -200,6 +212,7 @@ func (c *Chan[T]) doSend(v T) {
 		raceRelease(&w.sync[0])
 		w.done = true
 		completeSel(w.sel, w.idx)
+		absorb(w.t, c.h)
 		r.ready(w.t)
 		return
 	}
@@ -215,6 +228,7 @@ func (c *Chan[T]) doSend(v T) {
 // no happens-before edge (the sender is the runtime, not a program thread).
 func (c *Chan[T]) rawSendNB(v T) bool {
 	r := rt
+	c.h = mix(c.h, H{uint64(r.now), 0}, 0x83)
 	if w := c.popRecv(); w != nil {
 		*w.dst = v
 		if w.ok != nil {
@@ -222,6 +236,7 @@ func (c *Chan[T]) rawSendNB(v T) bool {
 		}
 		w.done = true
 		completeSel(w.sel, w.idx)
+		absorb(w.t, c.h)
 		r.ready(w.t)
 		return true
 	}
@@ -237,6 +252,7 @@ func (c *Chan[T]) rawSendNB(v T) bool {
 
 // rawDrain discards buffered values (sync timer Stop/Reset); reports whether there was one.
 func (c *Chan[T]) rawDrain() bool {
+	c.h = mix(c.h, H{}, 0x84)
 	if len(c.buf) == 0 {
 		return false
 	}
@@ -276,6 +292,7 @@ func (c *Chan[T]) Recv2() (v T, ok bool) {
 	}
 	w := &rwaiter[T]{t: r.cur, dst: &v, ok: &ok}
 	raceRelease(&w.sync[1])
+	r.event(&c.h, 0x85)
 	c.recvq = append(c.recvq, w)
 	r.block("chan recv")
 	if ok {
@@ -306,6 +323,7 @@ func (c *Chan[T]) Send(v T) {
 	}
 	w := &swaiter[T]{t: r.cur, val: v}
 	raceRelease(&w.sync[0])
+	r.event(&c.h, 0x86)
 	c.sendq = append(c.sendq, w)
 	r.block("chan send")
 	if w.panicClosed {
@@ -331,6 +349,7 @@ func (c *Chan[T]) Close() {
 		panic("close of closed channel")
 	}
 	c.closed = true
+	r.event(&c.h, 0x87)
 	if RaceEnabled {
 		raceRelease(c.closeAddr())
 	}
@@ -346,6 +365,7 @@ func (c *Chan[T]) Close() {
 		}
 		w.done = true
 		completeSel(w.sel, w.idx)
+		absorb(w.t, c.h)
 		r.ready(w.t)
 	}
 	for {
@@ -356,6 +376,7 @@ func (c *Chan[T]) Close() {
 		w.panicClosed = true
 		w.done = true
 		completeSel(w.sel, w.idx)
+		absorb(w.t, c.h)
 		r.ready(w.t)
 	}
 }
@@ -363,6 +384,7 @@ func (c *Chan[T]) Close() {
 // Case is one communication clause of a select.
 type Case interface {
 	ready() bool
+	observe() // happens-before event for a clause that was examined but did not proceed
 	exec()
 	enqueue(sel *selState, idx int)
 	after(sel *selState, chosen bool)
@@ -396,6 +418,11 @@ func (c *Chan[T]) RecvCase(dst *T, ok *bool) Case {
 func (c *Chan[T]) SendCase(v T) Case { return &sendCase[T]{c: c, v: v} }
 
 func (k *recvCase[T]) ready() bool { return k.c != nil && k.c.recvReady() }
+func (k *recvCase[T]) observe() {
+	if k.c != nil {
+		rt.event(&k.c.h, 0x88)
+	}
+}
 func (k *recvCase[T]) exec() {
 	*k.dst, *k.ok = k.c.doRecv()
 }
@@ -432,7 +459,12 @@ func (k *recvCase[T]) after(sel *selState, chosen bool) {
 }
 
 func (k *sendCase[T]) ready() bool { return k.c != nil && k.c.sendReady() }
-func (k *sendCase[T]) exec()       { k.c.doSend(k.v) }
+func (k *sendCase[T]) observe() {
+	if k.c != nil {
+		rt.event(&k.c.h, 0x88)
+	}
+}
+func (k *sendCase[T]) exec() { k.c.doSend(k.v) }
 func (k *sendCase[T]) enqueue(sel *selState, idx int) {
 	if k.c == nil {
 		return
@@ -498,8 +530,16 @@ func Select(hasDefault bool, cases ...Case) int {
 			k = r.choose(KSelect, len(ready), costs, "")
 		}
 		i := ready[k]
+		for j, c := range cases {
+			if j != i {
+				c.observe()
+			}
+		}
 		cases[i].exec()
 		return i
+	}
+	for _, c := range cases {
+		c.observe()
 	}
 	if hasDefault {
 		return -1
